@@ -21,6 +21,9 @@ pub fn sections(cfg: &RunCfg) -> Vec<Box<dyn AnySection>> {
         .into_iter()
         // the exact-phase oracle costs ~10x a plain transition: in the quick tier the depth-2 closure is kept for three sets only
         .filter(|(name, _, _, _)| !quick || !["bfv_p2_pow2", "bgv_p4", "bfv_p11_short", "bgv_p8_spenc"].contains(&name.as_str()))
+        // the exact-phase oracle is multi-precision work per coefficient: degree 1024 is kept for the thorough tier (45 s),
+        // degrees 4096 / 8192 (13 min and more per set) are left to C02 / C06, which run the same programs there
+        .filter(|(_, spec, _, _)| spec.n < 4096 && (!quick || spec.n < 1024))
         // thorough: the restricted depth-3 closure with the exact-phase oracle is kept for two sets (about 3 min each)
         .map(|(name, spec, depth, abs)| {
             let keep3 = ["bfv_p1", "bgv_p5_t5"].contains(&name.as_str());
